@@ -528,6 +528,12 @@ def check_exchange(rec, bench, fw, ctx, app, cfg, policy, target, shape, origin,
     if ctx == 'after-dep' and (target.name == 'deny' or target.name.startswith('qgate')):
         # dependent middleware: a component whose process_request never ran has no process_response (documented)
         live = False
+    if origin is not None and not origin.strip():
+        # an Origin field that is present but empty / blank: whether that "carries an Origin" is not fixed by the
+        # statement - only the safety cells are judged (nothing for a configuration that lists origins, no
+        # credentials without echo, no approval outside a preflight ...), not the positive table
+        live = False
+        rec.count('cell.blank-origin')
     ex = M.Exchange(origin, method, acrm, acrh, success, live=live, allow_expected=target.allow_expected)
     base, base_bad = bench.base(fw, base_k or base_kind(ctx), target, raw_shape, raw_origin, origin_name, env_extra)
     got, got_bad = got_pre or run_one(fw, app, target, raw_shape, raw_origin, origin_name, env_extra)
@@ -1189,6 +1195,16 @@ ENV_EXTRAS = [
 ]
 
 
+# present-but-empty / blank values of every request header the policy reads.  An empty
+# Access-Control-Request-Method names no method: such an OPTIONS request is not a preflight (Exchange.preflight).
+BLANK_SHAPES = [
+    ('OPTIONS', '', None), ('OPTIONS', '', 'X-Custom'), ('OPTIONS', '', ''), ('OPTIONS', 'GET', ''),
+    ('OPTIONS', None, ''), ('OPTIONS', ' ', None), ('OPTIONS', 'GET', ' '), ('OPTIONS', ('', ''), None),
+    ('GET', '', None), ('GET', None, ''), ('POST', '', ''),
+]
+BLANK_ORIGINS = ['', ' ', ('', ''), ('', OA)]
+
+
 def history_framing(rec, bench, desc):
     """Repeated header field lines (both frameworks) and non-header environ variables named like the headers the
     policy reads (WSGI).  desc: config (forms)."""
@@ -1219,6 +1235,24 @@ def history_framing(rec, bench, desc):
                             rec.count('hist.framing.last-origin-allowed-combined-not.' + fw)
                         if policy.allowed(origin[0]) and not policy.allowed(fold(origin)):
                             rec.count('hist.framing.first-origin-allowed-combined-not.' + fw)
+    blank_targets = targets + [t for t in all_targets() if t.name in ('static', 'sink0', 'sink1', 'auto2')]
+    for fw in ('wsgi', 'asgi'):
+        for t in blank_targets:
+            spec = t.plan.spec() if t.plan else None
+            for shape in BLANK_SHAPES:
+                for origin in (OA, OB, EVIL, None):
+                    check_exchange(rec, bench, fw, 'history:framing', apps[fw], cfg, policy, t, shape, origin,
+                                   plan_spec=spec, base_k='none', extra=extra)
+                    rec.count('hist.exchanges')
+                    rec.count('hist.framing.blank-request-headers.' + fw)
+                    if shape[0] == 'OPTIONS' and shape[1] == '' and policy.allowed(origin):
+                        rec.count('hist.framing.empty-request-method-allowed-origin.' + fw)
+            for shape in (SHAPES[0], SHAPES[5], SHAPES[7], BLANK_SHAPES[0]):
+                for origin in BLANK_ORIGINS:
+                    check_exchange(rec, bench, fw, 'history:framing', apps[fw], cfg, policy, t, shape, origin,
+                                   plan_spec=spec, base_k='none', extra=extra)
+                    rec.count('hist.exchanges')
+                    rec.count('hist.framing.blank-origin.' + fw)
     for t in targets:
         spec = t.plan.spec() if t.plan else None
         for shape in (SHAPES[0], SHAPES[5], SHAPES[7]):
@@ -1434,7 +1468,7 @@ def random_part(rec, bench):
                 origin = rng.choice(['null', rand_origin(rng), 'https://evil.test'])
             t = rng.choice(tl)
             if rng.random() < 0.6:
-                shape = ('OPTIONS', rng.choice(['GET', 'POST', 'DELETE', 'PATCH', 'get', None]),
+                shape = ('OPTIONS', rng.choice(['GET', 'POST', 'DELETE', 'PATCH', 'get', None, '']),
                          rng.choice([None, 'X-Custom', 'Content-Type, Authorization', 'x-a,x-b']))
             else:
                 shape = (rng.choice(['GET', 'POST', 'HEAD', 'DELETE', 'PUT', 'PATCH']),
@@ -1475,6 +1509,9 @@ def run(rec):
         'several header field lines with one name are the one field whose value is their comma-joined list (RFC 9110 '
         '5.3, what WSGI servers and the ASGI request do): an Origin sent as two lines is that combined string; WSGI '
         'environ keys without the HTTP_ prefix (other than CONTENT_TYPE/CONTENT_LENGTH) are not request headers',
+        'an Access-Control-Request-Method / -Headers field that is present but empty is sent as such; an empty request '
+        'method names no method, so that OPTIONS request is not a preflight; a present-but-empty/blank Origin is judged '
+        'by the safety cells only',
         'overlapping requests are modelled in one thread through a custom response_type whose header operations are '
         'the preemption points (B runs completely while A is paused); WSGI only - the ASGI CORS hook has no await',
         '"the configuration" = the value of the public attributes allow_origins / allow_credentials / expose_headers at '
@@ -1536,6 +1573,10 @@ def run(rec):
         ('hist.framing.last-origin-allowed-combined-not.wsgi', 50),
         ('hist.framing.last-origin-allowed-combined-not.asgi', 50),
         ('hist.framing.first-origin-allowed-combined-not.asgi', 50),
+        ('hist.framing.blank-request-headers.wsgi', 1000), ('hist.framing.blank-request-headers.asgi', 1000),
+        ('hist.framing.empty-request-method-allowed-origin.wsgi', 200),
+        ('hist.framing.empty-request-method-allowed-origin.asgi', 200),
+        ('hist.framing.blank-origin.wsgi', 300), ('hist.framing.blank-origin.asgi', 300),
         ('hist.overlap', 100), ('hist.overlap.interleavings', 500), ('hist.overlap.two-preflights', 150),
         ('hist.overlap.judged-a', 500), ('hist.overlap.judged-b', 500),
     ] + [('style.' + st, 5) for st in STYLES] + [('tgt.%sgate-%s' % (st, g), 30) for st in 'qr' for g in GATES] + \
